@@ -99,6 +99,7 @@ func arrayDefineOwnProperty(obj *object, name string, descriptor property, throw
 		}
 		for newLength < length {
 			length--
+			obj.runtime.pollInterrupt(int64(length))
 			if !obj.delete(strconv.FormatInt(int64(length), 10), false) {
 				descriptor.value = uint32Value(length + 1)
 				if !newWritable {
